@@ -34,7 +34,8 @@ CONSTANTS Kinds,      \* subset of AllKinds explored by this run
           MaxLen,     \* number of events per behaviour
           Emit,       \* TRUE: keep `hist' and print one JSON line per behaviour
           DimCheck,   \* is dimension checking compiled in
-          Rich        \* TRUE: larger alphabets (thorough tier)
+          Rich,       \* TRUE: larger alphabets (thorough tier)
+          UnitGrid    \* TRUE: integral/derivative/to-state inputs range over the whole 7x7 unit grid
 
 AllKinds == {"PID", "CmdPID", "EWMA", "EWMAQ", "MA", "MAQ", "Integral", "Derivative",
              "AccToState", "VelToState", "PosToState", "F2Q", "Q2F", "Freeze"}
@@ -69,6 +70,8 @@ Params(k) ==
          {[s |-> x] : x \in (IF Rich THEN {Zero, R(1, 2), R(3, 4), One} ELSE {R(1, 2), R(3, 4)})}
     [] k \in {"MA", "MAQ"} ->
          {[w |-> x] : x \in (IF Rich THEN {1, 2, 3, 8} ELSE {2, 3})}
+    [] UnitGrid /\ k \in {"Integral", "Derivative", "AccToState", "VelToState", "PosToState"} ->
+         {[unit |-> <<a, b>>] : a \in -3..3, b \in -3..3}
     [] k \in {"Integral", "Derivative"} ->
          {[unit |-> u] : u \in (IF Rich THEN {<<a, b>> : a \in {-3, 0, 1, 3}, b \in {-3, -1, 0, 3}}
                                         ELSE {MM, <<-2, 3>>})}
